@@ -421,6 +421,9 @@ func TestC07(t *testing.T) {
 			switch in.place {
 			case "before":
 				lo, hi = N.Node.Start, N.Node.End
+				if N.Node.GroupEnd > hi {
+					hi = N.Node.GroupEnd // the comment sits before "type (": the whole group
+				}
 				if N.Stmt == nil {
 					in.place = "before-declaration"
 				} else {
